@@ -372,7 +372,7 @@ func Run(cfg Config) (int, error) {
 	sampled := 25
 	sizes := [][2]int{{3, 2}}
 	if cfg.Tier == "thorough" {
-		sampled = 400
+		sampled = 100
 		sizes = [][2]int{{3, 2}, {4, 3}, {5, 3}, {3, 3}, {2, 1}}
 	}
 	for _, fl := range []noderig.Flavour{noderig.Core, noderig.Gnosis, noderig.Service} {
